@@ -328,7 +328,18 @@ struct H
 
   void verify(const char* after)
   {
-    for(int i = 0; i < 3; ++i)
+    // C09: the operation worked on s0; a handle it did not name must still hold its bytes (a shared payload modified in place shows here)
+    for(int i = 1; i < 3; ++i)
+    {
+      H* self = this;
+      struct F { H* h; int i; const char* after; void operator()() { h->verifyVar(i, after); } } f = {self, i, after};
+      VF_CHECK(vf::holds(f), "C09:String:modified-in-place", "after %s: s%d changed although the operation was applied to s0 (payload modified while another handle refers to it)", after, i);
+    }
+    for(int i = 0; i < 3; ++i) verifyVar(i, after);
+    verifyPairs(after);
+  }
+  void verifyVar(int i, const char* after)
+  {
     {
       String& x = *s[i];
       MStr& mm = m[i];
@@ -363,6 +374,9 @@ struct H
         }
       }
     }
+  }
+  void verifyPairs(const char* after)
+  {
     for(int i = 0; i < 3; ++i) for(int j = 0; j < 3; ++j)
     {
       bool wild = false;
